@@ -3,6 +3,8 @@ CONSTANTS
   MaxMods = 2
   MaxDecls = 2
   ImportPositions = TRUE
+  ImportTwice = TRUE
+  Restricted = FALSE
   Dirs <- FlatDirs
 INVARIANTS VisibleOK NoLeak EmitCase
 CHECK_DEADLOCK FALSE
